@@ -38,15 +38,13 @@ Proof.
   rewrite <- (sprod_zero ts). apply sprod_ext. intros t. lia.
 Qed.
 
-Theorem two_transcripts_relation ts lhs linv c c' (v v' : sterm -> Z) :
+(* product form: both transcripts open to the same value T = linv^c * prod = linv^c' * prod' *)
+Theorem two_transcripts_relation_prod ts lhs linv c c' (v v' : sterm -> Z) :
   units ts -> mulm n lhs linv = 1 -> 0 <= c' <= c ->
-  sfold n v ts (powm n linv c) = sfold n v' ts (powm n linv c') ->
+  mulm n (powm n linv c) (sprod n v ts) = mulm n (powm n linv c') (sprod n v' ts) ->
   sprod n (fun t => v t - v' t) ts = powm n lhs (c - c').
 Proof.
-  intros Hu Hinv Hc Heq.
-  (* both sides reduced: T = linv^c * V = linv^c' * V' *)
-  assert (HT : mulm n (powm n linv c) (sprod n v ts) = mulm n (powm n linv c') (sprod n v' ts)).
-  { rewrite <- !(sfold_mod n Hn). now rewrite Heq. }
+  intros Hu Hinv Hc HT.
   set (A := sprod n (fun t => v t - v' t) ts).
   set (B := sprod n v' ts) in *.
   set (Bi := sprod n (fun t => - v' t) ts).
@@ -67,6 +65,16 @@ Proof.
   rewrite (Z.mod_small A n) in H2 by (apply sprod_range; lia).
   rewrite H2. replace c with ((c - c') + c') at 1 by lia. rewrite powm_add by lia.
   rewrite mulm_assoc by lia. rewrite (Hcancel c' ltac:(lia)). rewrite mulm_1_r by lia. apply powm_idem_mod. lia.
+Qed.
+
+Theorem two_transcripts_relation ts lhs linv c c' (v v' : sterm -> Z) :
+  units ts -> mulm n lhs linv = 1 -> 0 <= c' <= c ->
+  sfold n v ts (powm n linv c) = sfold n v' ts (powm n linv c') ->
+  sprod n (fun t => v t - v' t) ts = powm n lhs (c - c').
+Proof.
+  intros Hu Hinv Hc Heq.
+  apply (two_transcripts_relation_prod ts lhs linv c c' v v' Hu Hinv Hc).
+  rewrite <- !(sfold_mod n Hn). now rewrite Heq.
 Qed.
 
 End Extract.
